@@ -95,6 +95,15 @@ Theorem C06_sum_of_product : forall x w1 t1 w1' y w2 a2 t2 w2' z w3 t3 w3' v (s1
     Bin (abinop s3) (Bin (abinop s1) (sem_operand x) (Bin (abinop a2) (sem_operand y) (sem_operand z))) (sem_operand v).
 Proof. exact sum_of_product. Qed.
 
+(* `to` binds loosest, next to every arithmetic operator: "x op y to u" is (x op y) to u and "x to u op y" is x to (u op y)
+   (operands 0, 1, 2 of the chain; the trees are those [C06_group_is_canon] renders). *)
+Theorem C06_cast_binds_loosest : forall w a t w' y wb tt wa u,
+  canon levels4 (Leaf 0, mkin 0 (prios (TCons w a t w' y (TTo wb tt wa u TNil))))
+    = Climb.Node (Climb.Node (Leaf 0) [((aprio a, 1), Leaf 1)]) [((1, 2), Leaf 2)] /\
+  canon levels4 (Leaf 0, mkin 0 (prios (TTo wb tt wa u (TCons w a t w' y TNil))))
+    = Climb.Node (Leaf 0) [((1, 1), Climb.Node (Leaf 1) [((aprio a, 2), Leaf 2)])].
+Proof. exact cast_binds_loosest. Qed.
+
 (* Blanks do not matter, with no bound: two query texts of numeric expressions that differ only in their blanks -- how many, of
    which kind, none at all where the lexer lets the token end, also at either end of the query ([skel_expr] forgets them) -- get
    answers that agree with the same exact value (or are both errors where it is undefined). *)
